@@ -434,6 +434,14 @@ theorem decode_dddi (b : Bytes) (sub : UInt8) (did : Option Nat) (h : decodeResp
   simp only [parseKind] at hp; unfold pDddi at hp
   pos_tac hp
 
+/-- a PDU that the registry dispatches to a class is never degraded to a raw response: it is decoded as that class's
+    family or rejected -/
+theorem known_class_never_raw (b p : Bytes) (e : Entry) (hd : dispatch b = .ok (some e)) :
+    decodeResp b ≠ .ok (.rawPos p) := by
+  intro h
+  have := decodeResp_kind b _ e h hd
+  simp [Resp.kind?] at this
+
 /-- unknown service or unknown sub-function: kept raw, byte for byte -/
 theorem decodeResp_raw_keeps (b : Bytes) (h : gate b = .ok .raw) : decodeResp b = .ok (.rawPos b) := by
   simp [decodeResp, h]
